@@ -258,6 +258,16 @@ static void reap(Slot &s, RunResult &r, bool timed_out) {
 
 // Run one plan synchronously in a forked child.
 static RunResult run_one(const Engine *eng, const std::vector<std::string> &plan, bool verbose = false) {
+  if (getenv("ORCSIM_NOFORK")) {
+    // debugging aid (gdb, valgrind): execute the plan in this very process
+    static Child c;
+    g_child = &c;
+    c.out_fd = 1;
+    c.verbose = true;
+    c.known = g_opt.known;
+    eng->run(plan, c);
+    c.finish();
+  }
   Slot s;
   s.pid = spawn_child(eng, plan, s.rfd, s.efd, verbose);
   s.started = now_s();
